@@ -9,8 +9,9 @@ import (
 func init() { register("C16", propC16) }
 
 func propC16(c *Ctx) {
-	c.Explanation = "Model equivalence with a plain byte string over operation histories is behavioural and not decided. Decided (for all counts/lengths, including negative, zero and beyond the size): (V1) View.CapLength re-slices with a three-index expression whose cap equals its length, so a capped view cannot be re-extended; View.TrimFront drops exactly count bytes; (V2) the size field moves in step with the chunks in every mutator of VectorisedView: the complete exact-guard site tables of TrimFront (partial trim of the first chunk: size -= count and the chunk loses count bytes; otherwise the whole first chunk goes and count shrinks by its length), RemoveFirst (size -= len(first chunk), chunk list loses its head; no-op when empty) and CapLength (negative lengths are 0, longer-than-size is a no-op, size = length, the chunk list is cut after the chunk where the length is reached and that chunk is capped to the remainder); (V3) Clone copies the chunk list into the caller's buffer re-sliced to zero length - the clone never shares the original's list of chunks - and keeps the size; First is views[0] or nil; ToView concatenates all chunks in order into a fresh slice; (V4) none of these functions can index or slice out of range for any argument (interval + linear-fact analysis; requirements on callers such as count <= len are discharged at the call sites inside the package and, for the inbound path, in C07); (V5) Prependable.Prepend returns nil unless size <= usedIdx, otherwise moves usedIdx down by size and returns exactly size bytes with cap = len. (V6) the one-line accessors and constructors return exactly the reviewed expressions (UsedLength = len(buf) - usedIdx, ...). NOT decided: equivalence with the byte-string model over all operation sequences and chunkings."
+	c.Explanation = "Model equivalence with a plain byte string over operation histories is behavioural and not decided. Decided (for all counts/lengths, including negative, zero and beyond the size): (V1) View.CapLength re-slices with a three-index expression whose cap equals its length, so a capped view cannot be re-extended; View.TrimFront drops exactly count bytes; (V2) the size field moves in step with the chunks in every mutator of VectorisedView: the complete exact-guard site tables of TrimFront (partial trim of the first chunk: size -= count and the chunk loses count bytes; otherwise the whole first chunk goes and count shrinks by its length), RemoveFirst (size -= len(first chunk), chunk list loses its head; no-op when empty) and CapLength (negative lengths are 0, longer-than-size is a no-op, size = length, the chunk list is cut after the chunk where the length is reached and that chunk is capped to the remainder); (V3) Clone copies the chunk list into the caller's buffer re-sliced to zero length - the clone never shares the original's list of chunks - and keeps the size; First is views[0] or nil; ToView concatenates all chunks in order into a fresh slice; (V4) none of these functions can index or slice out of range for any argument (interval + linear-fact analysis; requirements on callers such as count <= len are discharged at the call sites inside the package and, for the inbound path, in C07); (V5) Prependable.Prepend returns nil unless size <= usedIdx, otherwise moves usedIdx down by size and returns exactly size bytes with cap = len. (V6) the one-line accessors and constructors return exactly the reviewed expressions (UsedLength = len(buf) - usedIdx, ...). View.CapLength reslices unconditionally (V1). (V7) no integer of package buffer is converted to a narrower integer type (closed world, positive control on the header codecs). NOT decided: equivalence with the byte-string model over all operation sequences and chunkings."
 	bv := "(*buffer.VectorisedView)."
+	c.NoNewNarrowing(c.Rule("V7", "K8 narrowing (closed world, reviewed table)", "no length, offset or size of package buffer is converted to a narrower integer type", 2), []string{"/pkg/buffer"}, nil)
 	v1 := c.Rule("V1", "SSA shape", "View.CapLength is a three-index slice with cap == len", 2)
 	if fn := c.Fn(v1, "(*buffer.View).CapLength"); fn != nil {
 		n := 0
@@ -22,6 +23,9 @@ func propC16(c *Ctx) {
 			}
 		})
 		c.Check(n == 1, v1, FuncName(fn)+"/one-slice", c.P.Pos(fn.Pos()), "one re-slice", "CapLength no longer re-slices exactly once")
+		// ... on every call: no length decides whether the capacity is clipped (a cap
+		// equal to the current length must still drop the spare capacity)
+		c.Check(len(fn.Blocks) == 1, v1, FuncName(fn)+"/unconditional", c.P.Pos(fn.Pos()), "the re-slice is unconditional", "CapLength skips the re-slice under some condition: for those lengths the view keeps its spare capacity and can be re-extended past the cap")
 	}
 	if fn := c.Fn(v1, "(*buffer.View).TrimFront"); fn != nil {
 		Instrs(fn, func(in ssa.Instruction) {
@@ -51,18 +55,7 @@ func propC16(c *Ctx) {
 		})
 		c.Ordered(v2, fn, []string{"size update", "list update"}, []func(Site) bool{isStore("buffer.VectorisedView.size"), isStore("buffer.VectorisedView.views")})
 	}
-	if fn := c.Fn(v2, bv+"CapLength"); fn != nil {
-		ln := "phi{$1 | 0}"
-		i := "(1 + phi{-1 | loop})"
-		rem := "phi{(loop - builtin:len($0.views[" + i + "])) | " + ln + "}"
-		in := []string{"!($0.size < " + ln + ")", "(" + i + " < builtin:len($0.views))", "!(builtin:len($0.views[" + i + "]) < " + rem + ")"}
-		c.CheckSites(v2, fn, []SiteSpec{
-			{Kind: "store", Target: "buffer.VectorisedView.size", Args: []string{"$0", ln}, Guards: []string{"!($0.size < " + ln + ")"}, Exact: true, N: 1, Why: "size = max(length,0) when that is not larger than the current size"},
-			{Kind: "store", Target: "buffer.VectorisedView.views", Args: []string{"$0", "$0.views[:" + i + "]"}, Guards: append(append([]string{}, in...), "(0 == "+rem+")"), Exact: true, N: 1, Why: "length reached exactly at a chunk boundary: the list is cut before this chunk"},
-			{Kind: "call", Target: "(*buffer.View).CapLength", Args: []string{"&$0.views[" + i + "]", rem}, Guards: append(append([]string{}, in...), "!(0 == "+rem+")"), Exact: true, N: 1, Why: "length reached inside a chunk: that chunk is capped to the remainder"},
-			{Kind: "store", Target: "buffer.VectorisedView.views", Args: []string{"$0", "$0.views[:(" + i + " + 1)]"}, Guards: append(append([]string{}, in...), "!(0 == "+rem+")"), Exact: true, N: 1, Why: "... and the list is cut after it"},
-		})
-	}
+	vvCapLengthRule(c, v2)
 
 	v3 := c.Rule("V3", "K5 alias / site tables", "Clone copies the chunk list; First/ToView/constructors", 6)
 	if fn := c.Fn(v3, "buffer.VectorisedView.Clone"); fn != nil {
@@ -145,6 +138,26 @@ func propC16(c *Ctx) {
 			{Kind: "return", Target: "", Args: []string{"nil"}, Guards: []string{"($0.usedIdx < $1)"}, Exact: true, N: 1, Why: "no room: nil"},
 			{Kind: "store", Target: "buffer.Prependable.usedIdx", Args: []string{"$0", "($0.usedIdx - $1)"}, Guards: []string{"!($0.usedIdx < $1)"}, Exact: true, N: 1, Why: "the used region grows backwards by size"},
 			{Kind: "return", Target: "", Args: []string{"buffer.Prependable.View($0)[:$1:$1]"}, Guards: []string{"!($0.usedIdx < $1)"}, Exact: true, N: 1, Why: "exactly size bytes at the new front, cap = len"},
+		})
+	}
+}
+
+// vvCapLengthRule: VectorisedView.CapLength cuts the chunk list at exactly
+// the requested length (the size field, the list and the last chunk move
+// together). The IP layers use it to drop link-layer trailer bytes, so the
+// datagram, echo payload and fragment the upper layers see end where the IP
+// length says. Shared by C16/V2, C11/U17, C13/I11 and C08/F14.
+func vvCapLengthRule(c *Ctx, v2 string) {
+	if fn := c.Fn(v2, "(*buffer.VectorisedView).CapLength"); fn != nil {
+		ln := "phi{$1 | 0}"
+		i := "(1 + phi{-1 | loop})"
+		rem := "phi{(loop - builtin:len($0.views[" + i + "])) | " + ln + "}"
+		in := []string{"!($0.size < " + ln + ")", "(" + i + " < builtin:len($0.views))", "!(builtin:len($0.views[" + i + "]) < " + rem + ")"}
+		c.CheckSites(v2, fn, []SiteSpec{
+			{Kind: "store", Target: "buffer.VectorisedView.size", Args: []string{"$0", ln}, Guards: []string{"!($0.size < " + ln + ")"}, Exact: true, N: 1, Why: "size = max(length,0) when that is not larger than the current size"},
+			{Kind: "store", Target: "buffer.VectorisedView.views", Args: []string{"$0", "$0.views[:" + i + "]"}, Guards: append(append([]string{}, in...), "(0 == "+rem+")"), Exact: true, N: 1, Why: "length reached exactly at a chunk boundary: the list is cut before this chunk"},
+			{Kind: "call", Target: "(*buffer.View).CapLength", Args: []string{"&$0.views[" + i + "]", rem}, Guards: append(append([]string{}, in...), "!(0 == "+rem+")"), Exact: true, N: 1, Why: "length reached inside a chunk: that chunk is capped to the remainder"},
+			{Kind: "store", Target: "buffer.VectorisedView.views", Args: []string{"$0", "$0.views[:(" + i + " + 1)]"}, Guards: append(append([]string{}, in...), "!(0 == "+rem+")"), Exact: true, N: 1, Why: "... and the list is cut after it"},
 		})
 	}
 }
